@@ -82,3 +82,20 @@ def check (i : Inst) (as : List Nat) : Bool :=
   (List.range (i.n + 1)).all (fun j => Params.opCheckLenCmp.eval (rollLen i.D as) (i.cbound j))
 
 end Rl4co.Op
+
+namespace Rl4co.Op
+open Rl4co.Prize
+
+/-- `check_solution_validity` on a BATCH whose action tensor has a single column (`actions.size(-1) == 1`).
+`gather_by_index(td["locs"], actions)` squeezes the step dimension of size one, so `get_tour_length`
+rolls over the BATCH dimension: the "length" every row is tested with is the perimeter of the polygon
+through the nodes selected by the rows (0 for a batch of one).  `rows` = (instance, selected node) per
+row; `X r r'` = distance between the node selected in row `r` and the node selected in row `r'`
+(cross-row geometry, data).  The duplicate test is vacuous for one column. -/
+def checkSingleColumnBatch (rows : List (Inst × Nat)) (X : Nat → Nat → Int) : Bool :=
+  let B := rows.length
+  let P := ((List.range B).map (fun r => X r ((r + 1) % B))).sum
+  rows.all (fun ia => decide (ia.2 ≤ ia.1.n)) &&
+  rows.all (fun ia => (List.range (ia.1.n + 1)).all (fun j => Params.opCheckLenCmp.eval P (ia.1.cbound j)))
+
+end Rl4co.Op
